@@ -3,6 +3,8 @@ C20 — property theorems. Model: `HydroVerif/Model/C20.lean`; helper lemmas: `L
 All statements are over an arbitrary ordered field `α` (so over ℚ and ℝ), for every size.
 -/
 import HydroVerif.Lemmas.C20
+import HydroVerif.Lemmas.C20Quantile
+import HydroVerif.Lemmas.C20Group
 
 set_option linter.unusedSectionVars false
 set_option linter.unusedVariables false
@@ -80,6 +82,709 @@ theorem ppos_symmetric (n : Nat) (cst : α) (h0 : 0 ≤ cst) (h1 : cst ≤ 1 / 2
 
 example : ppos 3 (3 / 10 : Rat) = .ok [7 / 34, 1 / 2, 27 / 34] := by decide +kernel
 
+/-! ### pareto front
+`StrictlyBetter o rj ri`: `0 < o * (rj[k] - ri[k])` at every coordinate `k` present in both rows;
+`Dominated o d i`: some `j ≠ i` has `StrictlyBetter o d[j] d[i]` (definitions in `Lemmas/C20.lean`). -/
+
+theorem paretoFront_length (o : α) (d : List (List (Option α))) : (paretoFront o d).length = d.length := by
+  simp [paretoFront]
+
+/-- a point is flagged 1 exactly when another point is strictly better in every non-missing
+coordinate, and 0 otherwise -/
+theorem paretoFront_flag_iff (o : α) (d : List (List (Option α))) (i : Nat) (hi : i < d.length) :
+    ((paretoFront o d)[i]? = some 1 ↔ Dominated o d i) ∧
+    ((paretoFront o d)[i]? = some 0 ↔ ¬ Dominated o d i) := by
+  have hget : (paretoFront o d)[i]? = some (if isDominatedAt o d i then 1 else 0) := by
+    unfold paretoFront
+    rw [List.getElem?_map, List.getElem?_range hi]
+    rfl
+  rw [hget, ← isDominatedAt_iff]
+  cases isDominatedAt o d i <;> simp
+
+/-- complete data with at least one column: some point is not dominated, whatever the orientation -/
+theorem paretoFront_exists_nondominated (o : α) (d : List (List (Option α))) (ncol : Nat)
+    (hcol : 0 < ncol) (hne : d ≠ []) (hrows : ∀ r ∈ d, r.length = ncol)
+    (hcomplete : ∀ r ∈ d, ∀ x ∈ r, x ≠ none) :
+    ∃ i, i < d.length ∧ (paretoFront o d)[i]? = some 0 := by
+  -- key of a point: orientation times its first coordinate
+  let f : Nat → α := fun i => match d[i]? with
+    | some (some a :: _) => o * a
+    | _ => 0
+  have hlen : 0 < d.length := List.length_pos_iff.mpr hne
+  obtain ⟨i, hi, hmax⟩ := exists_max_index f d.length hlen
+  refine ⟨i, hi, ((paretoFront_flag_iff o d i hi).2).mpr ?_⟩
+  rintro ⟨j, ri, rj, hne', hri, hrj, hb⟩
+  have hj : j < d.length := by
+    by_contra hcon
+    rw [List.getElem?_eq_none (by omega)] at hrj
+    cases hrj
+  have hrim : ri ∈ d := List.mem_of_getElem? hri
+  have hrjm : rj ∈ d := List.mem_of_getElem? hrj
+  -- both rows start with a present value
+  have first : ∀ r ∈ d, ∃ a t, r = some a :: t := by
+    intro r hr
+    cases r with
+    | nil => have := hrows _ hr; simp at this; omega
+    | cons x t =>
+      cases x with
+      | none => exact absurd rfl (hcomplete _ hr none (by simp))
+      | some a => exact ⟨a, t, rfl⟩
+  obtain ⟨b, tb, rfl⟩ := first ri hrim
+  obtain ⟨a, ta, rfl⟩ := first rj hrjm
+  have hpos : 0 < o * (a - b) := hb 0 a b rfl rfl
+  have hle : f j ≤ f i := hmax j hj
+  have hfi : f i = o * b := by simp only [f, hri]
+  have hfj : f j = o * a := by simp only [f, hrj]
+  rw [hfi, hfj] at hle
+  have : o * (a - b) = o * a - o * b := by ring
+  linarith
+
+/-- reversing the orientation equals negating the data -/
+theorem paretoFront_orientation_neg (o : α) (d : List (List (Option α))) :
+    paretoFront (-o) d = paretoFront o (negRows d) := by
+  have hget : ∀ k : Nat, (negRows d)[k]? = (d[k]?).map fun (r : List (Option α)) => r.map fun x => x.map fun v => -v := by
+    intro k
+    simp [negRows]
+  unfold paretoFront
+  have hl : (negRows d).length = d.length := by simp [negRows]
+  rw [hl]
+  apply List.map_congr_left
+  intro i _
+  have : isDominatedAt (-o) d i = isDominatedAt o (negRows d) i := by
+    unfold isDominatedAt
+    rw [hget i, hl]
+    cases d[i]? with
+    | none => rfl
+    | some ri =>
+      simp only [Option.map_some]
+      congr 1
+      funext j
+      rw [hget j]
+      cases d[j]? with
+      | none => rfl
+      | some rj => simp only [Option.map_some, domBy_neg]
+  rw [this]
+
+example : paretoFront (1 : Rat) [[some 1, some 2], [some 2, some 3], [none, some 1]] = [1, 0, 1] := by
+  decide +kernel
+
+/-! ### min–max normalisation of the density profile -/
+
+/-- a profile that is not flat is mapped into `[0, 1]`, and both ends are attained -/
+theorem normalise_unit_range (y : List α) (a b : α) (ha : a ∈ y) (hb : b ∈ y) (hab : a < b) :
+    ∃ l, normalise y = some l ∧ l.length = y.length ∧ (∀ v ∈ l, 0 ≤ v ∧ v ≤ 1) ∧ (0 : α) ∈ l ∧ (1 : α) ∈ l := by
+  have hne : y ≠ [] := List.ne_nil_of_mem ha
+  obtain ⟨lo, hlo⟩ := minL_isSome hne
+  obtain ⟨hi, hhi⟩ := maxL_isSome hne
+  obtain ⟨hlom, hlole⟩ := minL_spec hlo
+  obtain ⟨him, hile⟩ := maxL_spec hhi
+  have hlt : lo < hi := lt_of_le_of_lt (hlole a ha) (lt_of_lt_of_le hab (hile b hb))
+  have hd : 0 < hi - lo := sub_pos.mpr hlt
+  refine ⟨y.map fun v => (v - lo) / (hi - lo), ?_, by simp, ?_, ?_, ?_⟩
+  · simp [normalise, hlo, hhi]
+  · intro v hv
+    simp only [List.mem_map] at hv
+    obtain ⟨w, hw, rfl⟩ := hv
+    have h1 := hlole w hw
+    have h2 := hile w hw
+    constructor
+    · exact div_nonneg (by linarith) hd.le
+    · rw [div_le_one hd]; linarith
+  · simp only [List.mem_map]
+    exact ⟨lo, hlom, by simp⟩
+  · simp only [List.mem_map]
+    exact ⟨hi, him, div_self hd.ne'⟩
+
+example : normalise [(2 : Rat), 5, 3] = some [0, 1, 1 / 3] := by decide +kernel
+
+/-! ### standard_normal (`norm.ppf` is a parameter, assumed strictly increasing on (0, 1)) -/
+
+/-- what the function returns on NaN-free data: 0-based ranks and `ppf` arguments, entry by entry -/
+theorem standardNormal_eq (m : RankMethod) (cst : α) (x : List α) :
+    standardNormal m cst (x.map some) =
+      .ok (x.map (fun v => scoreArg x.length cst (rank m x v - 1)), x.map (fun v => rank m x v - 1)) := by
+  have h1 : (x.map some).any Option.isNone = false := by
+    simp [List.any_eq_false]
+  have h2 : (x.map some).filterMap id = x := by
+    simp [List.filterMap_map]
+  unfold standardNormal
+  simp only [h1, h2, Bool.false_eq_true, if_false, List.map_map]
+  rfl
+
+/-- a NaN anywhere is rejected -/
+theorem standardNormal_rejects_nan (m : RankMethod) (cst : α) (x : List (Option α)) (h : none ∈ x) :
+    standardNormal m cst x = .error .hasNan := by
+  have : x.any Option.isNone = true := List.any_eq_true.mpr ⟨none, h, rfl⟩
+  unfold standardNormal
+  simp [this]
+
+/-- ranks follow the order of the data: strictly larger value, strictly larger rank; equal values
+(ties) share their rank since the rank is a function of the value -/
+theorem rank_order_preserving (m : RankMethod) (xs : List α) (x y : α) (hx : x ∈ xs) (hy : y ∈ xs) :
+    rank m xs x < rank m xs y ↔ x < y := by
+  constructor
+  · intro h
+    by_contra hxy
+    rcases lt_or_eq_of_le (not_lt.mp hxy) with h' | h'
+    · exact absurd h (not_lt.mpr (rank_lt_of_lt m xs hy hx h').le)
+    · subst h'; exact lt_irrefl _ h
+  · exact rank_lt_of_lt m xs hx hy
+
+/-- normal scores are a strictly increasing function of the ranks (plotting constant in [0, 0.5]),
+hence ordered exactly as the data -/
+theorem normal_scores_increasing_in_rank (ppf : α → α) (hppf : StrictMonoOn ppf (Set.Ioo 0 1))
+    (m : RankMethod) (cst : α) (h0 : 0 ≤ cst) (h1 : cst ≤ 1 / 2) (xs : List α) (x y : α)
+    (hx : x ∈ xs) (hy : y ∈ xs) :
+    (ppf (scoreArg xs.length cst (rank m xs x - 1)) < ppf (scoreArg xs.length cst (rank m xs y - 1))
+      ↔ rank m xs x < rank m xs y) ∧
+    (ppf (scoreArg xs.length cst (rank m xs x - 1)) < ppf (scoreArg xs.length cst (rank m xs y - 1))
+      ↔ x < y) := by
+  have hn : 0 < xs.length := List.length_pos_of_mem hx
+  have bx := rank_bounds m xs hx
+  have bY := rank_bounds m xs hy
+  have ux := scoreArg_mem_unit xs.length hn cst h0 h1 (r := rank m xs x - 1) (by linarith [bx.1]) (by linarith [bx.2])
+  have uy := scoreArg_mem_unit xs.length hn cst h0 h1 (r := rank m xs y - 1) (by linarith [bY.1]) (by linarith [bY.2])
+  have hmono : StrictMono (scoreArg xs.length cst) := fun r s h => scoreArg_lt xs.length hn cst h1 h
+  have key : ppf (scoreArg xs.length cst (rank m xs x - 1)) < ppf (scoreArg xs.length cst (rank m xs y - 1))
+      ↔ rank m xs x < rank m xs y := by
+    rw [hppf.lt_iff_lt (Set.mem_Ioo.mpr ux) (Set.mem_Ioo.mpr uy), hmono.lt_iff_lt]
+    constructor <;> intro h <;> linarith
+  exact ⟨key, key.trans (rank_order_preserving m xs x y hx hy)⟩
+
+/-- the plotting positions handed to `ppf` lie in (0, 1) for every rank method -/
+theorem normal_scores_argument_in_unit_interval (m : RankMethod) (cst : α) (h0 : 0 ≤ cst) (h1 : cst ≤ 1 / 2)
+    (xs : List α) (x : α) (hx : x ∈ xs) :
+    0 < scoreArg xs.length cst (rank m xs x - 1) ∧ scoreArg xs.length cst (rank m xs x - 1) < 1 := by
+  have hn : 0 < xs.length := List.length_pos_of_mem hx
+  have bx := rank_bounds m xs hx
+  exact scoreArg_mem_unit xs.length hn cst h0 h1 (by linarith [bx.1]) (by linarith [bx.2])
+
+example : standardNormal .average (0 : Rat) [some 3, some 1, some 3] = .ok ([5 / 8, 1 / 4, 5 / 8], [3 / 2, 0, 3 / 2]) := by
+  decide +kernel
+
+/-! ### lhs
+`perm` is whatever `np.random.permutation(n)` returned (any permutation of `0..n-1`), `r` the unit draws
+(`uniform(-du/2, du/2)` is `low + (high - low) r`, `r ∈ [0, 1)`). -/
+
+/-- the jitter `-du/2 + (du/2 - -du/2) r` stays inside half a stratum on either side -/
+theorem lhs_jitter_range (du r : α) (hdu : 0 < du) (hr0 : 0 ≤ r) (hr1 : r < 1) :
+    -du / 2 ≤ -du / 2 + (du / 2 - -du / 2) * r ∧ -du / 2 + (du / 2 - -du / 2) * r < du / 2 := by
+  have h1 : 0 ≤ du * r := mul_nonneg hdu.le hr0
+  have h2 : du * r < du := by simpa using mul_lt_mul_of_pos_left hr1 hdu
+  have : (du / 2 - -du / 2) * r = du * r := by ring
+  rw [this]
+  constructor <;> linarith
+
+/-- for ANY permutation and ANY unit draws, every one of the `n` equal strata
+`[pmin + k du, pmin + (k+1) du)` of the parameter range receives exactly one sample -/
+theorem lhsColumn_one_point_per_stratum (n : Nat) (pmin pmax : α) (h : pmin < pmax) (perm : List Nat) (r : List α)
+    (hperm : perm.Perm (List.range n)) (hr : r.length = n) (hr01 : ∀ x ∈ r, 0 ≤ x ∧ x < 1) :
+    ∃ s, lhsColumn n pmin pmax perm r = .ok s ∧ s.length = n ∧
+      ∀ k, k < n → s.countP (fun x => decide (pmin + (k : α) * ((pmax - pmin) / (n : α)) ≤ x ∧
+                                               x < pmin + ((k : α) + 1) * ((pmax - pmin) / (n : α)))) = 1 := by
+  have hp : perm.length = n := by simpa using hperm.length_eq
+  have hk : ∀ k ∈ perm, k < n := fun k hk => List.mem_range.mp (hperm.mem_iff.mp hk)
+  refine ⟨_, lhsColumn_eq n pmin pmax perm r hp hr hk, by simp [hp, hr], ?_⟩
+  intro k hkn
+  have hn : (0 : α) < (n : α) := by exact_mod_cast (by omega : 0 < n)
+  have hdu : 0 < (pmax - pmin) / (n : α) := div_pos (sub_pos.mpr h) hn
+  rw [countP_zipWith_stratum pmin _ hdu k perm r hr01 (by rw [hp, hr]), hperm.count_eq]
+  exact List.count_eq_one_of_mem List.nodup_range (List.mem_range.mpr hkn)
+
+/-- every sample lies in `[pmin, pmax)` -/
+theorem lhsColumn_in_range (n : Nat) (pmin pmax : α) (h : pmin < pmax) (perm : List Nat) (r : List α)
+    (hperm : perm.Perm (List.range n)) (hr : r.length = n) (hr01 : ∀ x ∈ r, 0 ≤ x ∧ x < 1)
+    (s : List α) (hs : lhsColumn n pmin pmax perm r = .ok s) : ∀ x ∈ s, pmin ≤ x ∧ x < pmax := by
+  have hp : perm.length = n := by simpa using hperm.length_eq
+  have hk : ∀ k ∈ perm, k < n := fun k hk => List.mem_range.mp (hperm.mem_iff.mp hk)
+  rw [lhsColumn_eq n pmin pmax perm r hp hr hk] at hs
+  injection hs with hs
+  subst hs
+  intro x hx
+  obtain ⟨i, hi, rfl⟩ := List.mem_iff_getElem.mp hx
+  simp only [List.length_zipWith] at hi
+  simp only [List.getElem_zipWith]
+  have hpi : perm[i] < n := hk _ (List.getElem_mem _)
+  have hri := hr01 (r[i]) (List.getElem_mem _)
+  have hn0 : 0 < n := by omega
+  have hn : (0 : α) < (n : α) := by exact_mod_cast hn0
+  set du := (pmax - pmin) / (n : α) with hdu_def
+  have hdu : 0 < du := div_pos (sub_pos.mpr h) hn
+  have hndu : (n : α) * du = pmax - pmin := by rw [hdu_def]; field_simp
+  have h1 : 0 ≤ du * r[i] := mul_nonneg hdu.le hri.1
+  have h2 : du * r[i] < du := by simpa using mul_lt_mul_of_pos_left hri.2 hdu
+  have h3 : (0 : α) ≤ (perm[i] : α) * du := mul_nonneg (Nat.cast_nonneg _) hdu.le
+  have h4 : ((perm[i] : Nat) : α) + 1 ≤ (n : α) := by exact_mod_cast hpi
+  have h5 := mul_le_mul_of_nonneg_right h4 hdu.le
+  constructor <;> nlinarith
+
+example : lhsColumn 3 (0 : Rat) 1 [2, 0, 1] [0, 1 / 2, 3 / 4] = .ok [2 / 3, 1 / 6, 7 / 12] := by decide +kernel
+
+/-- all parameters at once (`LhsInputsOK`, `OnePerStratum`: the per-column statements, list-wise) -/
+theorem lhsColumns_one_point_per_stratum (n : Nat) (pmin pmax : List α) (perms : List (List Nat))
+    (rs : List (List α)) (h : LhsInputsOK n pmin pmax perms rs) :
+    ∃ cols, lhsColumns n pmin pmax perms rs = .ok cols ∧ OnePerStratum n pmin pmax cols := by
+  induction pmin generalizing pmax perms rs with
+  | nil =>
+    cases pmax <;> cases perms <;> cases rs <;> simp_all [LhsInputsOK, lhsColumns, OnePerStratum]
+  | cons a t ih =>
+    cases pmax with
+    | nil => simp [LhsInputsOK] at h
+    | cons b tb =>
+      cases perms with
+      | nil => simp [LhsInputsOK] at h
+      | cons p tp =>
+        cases rs with
+        | nil => simp [LhsInputsOK] at h
+        | cons r tr =>
+          simp only [LhsInputsOK] at h
+          obtain ⟨hab, hperm, hr, hr01, hrest⟩ := h
+          obtain ⟨c, hc, hlen, hcount⟩ := lhsColumn_one_point_per_stratum n a b hab p r hperm hr hr01
+          obtain ⟨cs, hcs, hok⟩ := ih tb tp tr hrest
+          refine ⟨c :: cs, ?_, ?_⟩
+          · simp only [lhsColumns, hc, hcs]
+            rfl
+          · exact ⟨hlen, hcount, hok⟩
+
+/-- `lhs(nsamples, pmin, pmax)` with `nsamples ≥ 1` and proper ranges: accepted, and every parameter
+column places exactly one sample in each of its `nsamples` equal strata -/
+theorem lhs_one_point_per_stratum (n : Nat) (hn : 0 < n) (pmin pmax : List α) (perms : List (List Nat))
+    (rs : List (List α)) (h : LhsInputsOK n pmin pmax perms rs) :
+    ∃ cols, lhs n pmin pmax perms rs = .ok cols ∧ OnePerStratum n pmin pmax cols := by
+  obtain ⟨cols, hc, hok⟩ := lhsColumns_one_point_per_stratum n pmin pmax perms rs h
+  refine ⟨cols, ?_, hok⟩
+  have hlen := h.length_eq
+  have hbc := broadcast_eq pmax pmin.length hlen
+  unfold lhs
+  simp only [hbc, hlen, ne_eq, not_true_eq_false, if_false, h.no_empty_range, Bool.false_eq_true]
+  rw [if_neg (by omega)]
+  exact hc
+
+/-- a range with `pmax ≤ pmin` is rejected -/
+theorem lhs_rejects_empty_range (n : Nat) (a b : α) (hab : b ≤ a) (perms : List (List Nat)) (rs : List (List α)) :
+    lhs n [a] [b] perms rs = .error .pmaxLePmin := by
+  simp [lhs, broadcast, hab]
+
 end field
+
+section floor
+variable {α : Type} [Field α] [LinearOrder α] [IsStrictOrderedRing α] [FloorRing α]
+
+/-! ### quantiles and percentiles (numpy method "linear") on the sorted finite values
+`FloorNat.floorNat` is `⌊·⌋₊` here (instance in `Lemmas/C20Quantile.lean`). -/
+
+/-- every quantile lies between the smallest and the largest value -/
+theorem quantile_within_min_max (s : List α) (hs : s.Pairwise (· ≤ ·)) (first last : α)
+    (hf : s.head? = some first) (hl : s.getLast? = some last) (q : α) (hq0 : 0 ≤ q) (hq1 : q ≤ 1) :
+    ∃ v, quantile s q = .ok v ∧ first ≤ v ∧ v ≤ last := by
+  have hg := getD_mono s hs last (sorted_le_getLast s hs last hl)
+  have hv : 0 ≤ ((s.length - 1 : Nat) : α) * q := mul_nonneg (Nat.cast_nonneg _) hq0
+  refine ⟨_, quantile_eq s first last hf hl q hq0 hq1, ?_⟩
+  have hb := interpG_bounds _ hg (s.length - 1) _ hv
+  simp only [getD_zero_of_head s first last hf, getD_last_of_getLast s last hl] at hb
+  exact hb
+
+/-- quantiles are non-decreasing in the level -/
+theorem quantile_monotone (s : List α) (hs : s.Pairwise (· ≤ ·)) (q q' : α) (hq0 : 0 ≤ q) (hqq : q ≤ q')
+    (hq1 : q' ≤ 1) (v v' : α) (hv : quantile s q = .ok v) (hv' : quantile s q' = .ok v') : v ≤ v' := by
+  cases hf : s.head? with
+  | none =>
+    have : s = [] := by simpa using hf
+    subst this
+    simp [quantile] at hv
+    split at hv <;> cases hv
+  | some first =>
+    have hne : s ≠ [] := by rintro rfl; simp at hf
+    obtain ⟨last, hl⟩ : ∃ last, s.getLast? = some last := ⟨_, List.getLast?_eq_some_getLast hne⟩
+    have hg := getD_mono s hs last (sorted_le_getLast s hs last hl)
+    rw [quantile_eq s first last hf hl q hq0 (le_trans hqq hq1)] at hv
+    rw [quantile_eq s first last hf hl q' (le_trans hq0 hqq) hq1] at hv'
+    injection hv with hv
+    injection hv' with hv'
+    rw [← hv, ← hv']
+    apply interpG_mono _ hg
+    · exact mul_nonneg (Nat.cast_nonneg _) hq0
+    · exact mul_le_mul_of_nonneg_left hqq (Nat.cast_nonneg _)
+
+/-- the value is the linear interpolation between the two order statistics around the virtual index
+`(n - 1) q` (Hyndman–Fan definition 7) -/
+theorem quantile_linear_interpolation (s : List α) (q : α) (hq0 : 0 ≤ q) (hq1 : q ≤ 1) (k : Nat)
+    (hk : k + 1 < s.length) (h1 : (k : α) ≤ ((s.length - 1 : Nat) : α) * q)
+    (h2 : ((s.length - 1 : Nat) : α) * q < (k : α) + 1) :
+    quantile s q = .ok (s[k] + (s[k + 1] - s[k]) * (((s.length - 1 : Nat) : α) * q - (k : α))) := by
+  have hne : s ≠ [] := List.ne_nil_of_length_pos (by omega)
+  obtain ⟨first, hf⟩ : ∃ first, s.head? = some first := by
+    cases s with
+    | nil => exact absurd rfl hne
+    | cons a t => exact ⟨a, rfl⟩
+  obtain ⟨last, hl⟩ : ∃ last, s.getLast? = some last := ⟨_, List.getLast?_eq_some_getLast hne⟩
+  have hv : 0 ≤ ((s.length - 1 : Nat) : α) * q := mul_nonneg (Nat.cast_nonneg _) hq0
+  have hfl : ⌊((s.length - 1 : Nat) : α) * q⌋₊ = k := (Nat.floor_eq_iff hv).mpr ⟨h1, h2⟩
+  rw [quantile_eq s first last hf hl q hq0 hq1]
+  have hlt : ¬ ((s.length - 1 : Nat) : α) ≤ ((s.length - 1 : Nat) : α) * q := by
+    have : (k : α) + 1 ≤ ((s.length - 1 : Nat) : α) := by exact_mod_cast (by omega : k + 1 ≤ s.length - 1)
+    push Not
+    linarith
+  simp only [interpG, hlt, if_false, hfl]
+  rw [getD_of_lt _ _ _ (by omega : k < s.length), getD_of_lt _ _ _ hk]
+
+/-- level 0 is the minimum, level 1 the maximum -/
+theorem quantile_zero_one (s : List α) (first last : α) (hf : s.head? = some first) (hl : s.getLast? = some last) :
+    quantile s 0 = .ok first ∧ quantile s 1 = .ok last := by
+  have hne : s ≠ [] := by rintro rfl; simp at hf
+  have hlen : 0 < s.length := List.length_pos_iff.mpr hne
+  constructor
+  · rw [quantile_eq s first last hf hl 0 (le_refl _) zero_le_one]
+    simp only [mul_zero, interpG, Nat.floor_zero, Nat.cast_zero, sub_zero]
+    rw [getD_zero_of_head s first last hf]
+    by_cases h : ((s.length - 1 : Nat) : α) ≤ 0
+    · have h' : s.length - 1 = 0 := by
+        have : ((s.length - 1 : Nat) : α) = 0 := le_antisymm h (Nat.cast_nonneg _)
+        exact_mod_cast this
+      rw [if_pos h, h', getD_zero_of_head s first last hf]
+    · rw [if_neg h]
+      simp
+  · rw [quantile_eq s first last hf hl 1 zero_le_one (le_refl _)]
+    simp only [mul_one, interpG, le_refl, if_true]
+    rw [getD_last_of_getLast s last hl]
+
+/-- percentiles (levels in percent) inherit both facts: within `[min, max]` and non-decreasing in the level -/
+theorem percentile_within_min_max (s : List α) (hs : s.Pairwise (· ≤ ·)) (first last : α)
+    (hf : s.head? = some first) (hl : s.getLast? = some last) (p : α) (hp0 : 0 ≤ p) (hp1 : p ≤ 100) :
+    ∃ v, percentile s p = .ok v ∧ first ≤ v ∧ v ≤ last := by
+  obtain ⟨h0, h1⟩ := percentile_level p hp0 hp1
+  exact quantile_within_min_max s hs first last hf hl _ h0 h1
+
+theorem percentile_monotone (s : List α) (hs : s.Pairwise (· ≤ ·)) (p p' : α) (hp0 : 0 ≤ p) (hpp : p ≤ p')
+    (hp1 : p' ≤ 100) (v v' : α) (hv : percentile s p = .ok v) (hv' : percentile s p' = .ok v') : v ≤ v' := by
+  obtain ⟨h0, _⟩ := percentile_level p hp0 (le_trans hpp hp1)
+  obtain ⟨_, h1⟩ := percentile_level p' (le_trans hp0 hpp) hp1
+  have h100 : (0 : α) < ((100 : Nat) : α) := by norm_num
+  exact quantile_monotone s hs _ _ h0 (div_le_div_of_nonneg_right hpp h100.le) h1 v v' hv hv'
+
+/-- levels outside `[0, 100]` are rejected, as numpy does -/
+theorem percentile_rejects_level (s : List α) (p : α) (h : p < 0 ∨ 100 < p) :
+    percentile s p = .error .percentileRange := by
+  have h100 : (0 : α) < ((100 : Nat) : α) := by norm_num
+  unfold percentile quantile
+  rw [if_pos]
+  rcases h with h | h
+  · intro hc
+    have := div_neg_of_neg_of_pos h h100
+    linarith [hc.1]
+  · intro hc
+    have : 1 < p / ((100 : Nat) : α) := by
+      rw [one_lt_div h100]
+      simpa using h
+    linarith [hc.2]
+
+/-! ### box statistics -/
+
+/-- the five levels implied by the coverages are ordered and symmetric about 50 -/
+theorem computePercentiles_levels (b w : α) (hb : 0 ≤ b) (hbw : b ≤ w) (hw : w ≤ 100) :
+    0 ≤ (computePercentiles w).1 ∧ (computePercentiles w).1 ≤ (computePercentiles b).1 ∧
+    (computePercentiles b).1 ≤ 50 ∧ 50 ≤ (computePercentiles b).2 ∧
+    (computePercentiles b).2 ≤ (computePercentiles w).2 ∧ (computePercentiles w).2 ≤ 100 ∧
+    (computePercentiles b).1 + (computePercentiles b).2 = 100 ∧
+    (computePercentiles w).1 + (computePercentiles w).2 = 100 ∧
+    (computePercentiles b).2 - (computePercentiles b).1 = b ∧
+    (computePercentiles w).2 - (computePercentiles w).1 = w := by
+  simp only [computePercentiles, Nat.cast_ofNat]
+  refine ⟨?_, ?_, ?_, ?_, ?_, ?_, ?_, ?_, ?_, ?_⟩ <;> linarith
+
+/-- four finite values or more: the count is the number of finite values; the five percentiles are
+those of the sorted finite values at the implied levels, in non-decreasing order between min and max;
+min and max are attained and bound every finite value; mean times count is the sum -/
+theorem boxStats_summary (data : List (Option α)) (b w : α) (hb : 0 ≤ b) (hbw : b ≤ w) (hw : w ≤ 100)
+    (hcount : 3 < (data.filterMap id).length) :
+    ∃ v, boxStats data b w = .ok ((data.filterMap id).length, some v) ∧
+      v.min ≤ v.w1 ∧ v.w1 ≤ v.b1 ∧ v.b1 ≤ v.med ∧ v.med ≤ v.b2 ∧ v.b2 ≤ v.w2 ∧ v.w2 ≤ v.max ∧
+      v.min ∈ data.filterMap id ∧ v.max ∈ data.filterMap id ∧
+      (∀ x ∈ data.filterMap id, v.min ≤ x ∧ x ≤ v.max) ∧
+      v.mean * ((data.filterMap id).length : α) = (data.filterMap id).sum ∧
+      percentile (sortL (data.filterMap id)) (computePercentiles w).1 = .ok v.w1 ∧
+      percentile (sortL (data.filterMap id)) (computePercentiles b).1 = .ok v.b1 ∧
+      percentile (sortL (data.filterMap id)) 50 = .ok v.med ∧
+      percentile (sortL (data.filterMap id)) (computePercentiles b).2 = .ok v.b2 ∧
+      percentile (sortL (data.filterMap id)) (computePercentiles w).2 = .ok v.w2 := by
+  set vals := data.filterMap id with hvals
+  have hne : vals ≠ [] := List.ne_nil_of_length_pos (by omega)
+  have hsne : sortL vals ≠ [] := List.ne_nil_of_length_pos (by rw [sortL_length]; omega)
+  obtain ⟨mn, hmn⟩ := minL_isSome hne
+  obtain ⟨mx, hmx⟩ := maxL_isSome hne
+  obtain ⟨first, hf⟩ : ∃ first, (sortL vals).head? = some first := by
+    cases h : sortL vals with
+    | nil => exact absurd h hsne
+    | cons a t => exact ⟨a, rfl⟩
+  obtain ⟨last, hl⟩ : ∃ last, (sortL vals).getLast? = some last := ⟨_, List.getLast?_eq_some_getLast hsne⟩
+  have hfirst := sortL_head_eq_minL vals mn first hmn hf
+  have hlast := sortL_last_eq_maxL vals mx last hmx hl
+  subst hfirst hlast
+  have hs := sortL_sorted vals
+  obtain ⟨l0, l1, l2, l3, l4, l5, _, _, _, _⟩ := computePercentiles_levels b w hb hbw hw
+  have h50 : (((50 : Nat) : α)) = 50 := by norm_num
+  obtain ⟨w1, e1, a1, _⟩ := percentile_within_min_max (sortL vals) hs first last hf hl (computePercentiles w).1 l0
+    (by linarith)
+  obtain ⟨b1, e2, _, _⟩ := percentile_within_min_max (sortL vals) hs first last hf hl (computePercentiles b).1
+    (by linarith) (by linarith)
+  obtain ⟨med, e3, _, _⟩ := percentile_within_min_max (sortL vals) hs first last hf hl 50 (by norm_num) (by norm_num)
+  obtain ⟨b2, e4, _, _⟩ := percentile_within_min_max (sortL vals) hs first last hf hl (computePercentiles b).2
+    (by linarith) (by linarith)
+  obtain ⟨w2, e5, _, a5⟩ := percentile_within_min_max (sortL vals) hs first last hf hl (computePercentiles w).2
+    (by linarith) l5
+  have m12 := percentile_monotone (sortL vals) hs _ _ l0 l1 (by linarith) w1 b1 e1 e2
+  have m23 := percentile_monotone (sortL vals) hs _ _ (by linarith) l2 (by norm_num) b1 med e2 e3
+  have m34 := percentile_monotone (sortL vals) hs _ _ (by norm_num) l3 (by linarith) med b2 e3 e4
+  have m45 := percentile_monotone (sortL vals) hs _ _ (by linarith) l4 l5 b2 w2 e4 e5
+  obtain ⟨hmnm, hmnle⟩ := minL_spec hmn
+  obtain ⟨hmxm, hmxle⟩ := maxL_spec hmx
+  have hlenpos : ((vals.length : Nat) : α) ≠ 0 := by
+    have : vals.length ≠ 0 := by omega
+    exact_mod_cast this
+  refine ⟨_, boxStats_eq data b w hcount w1 b1 med b2 w2 last first e1 e2 (by rw [h50]; exact e3) e4 e5 hmx hmn,
+    a1, m12, m23, m34, m45, a5, hmnm, hmxm, fun x hx => ⟨hmnle x hx, hmxle x hx⟩, ?_, e1, e2, e3, e4, e5⟩
+  simp only
+  rw [sumL_eq_sum, div_mul_cancel₀ _ hlenpos]
+
+/-- fewer than four finite values: only the count is reported (a NaN row) -/
+theorem boxStats_few_values (data : List (Option α)) (b w : α) (hcount : (data.filterMap id).length ≤ 3) :
+    boxStats data b w = .ok ((data.filterMap id).length, none) :=
+  boxStats_few_eq data b w hcount
+
+/-- NaN / ±inf entries change nothing: the statistics are those of the finite values alone -/
+theorem boxStats_ignores_nonfinite (data : List (Option α)) (b w : α) :
+    boxStats data b w = boxStats ((data.filterMap id).map some) b w := by
+  have : ((data.filterMap id).map some).filterMap id = data.filterMap id := by
+    simp [List.filterMap_map]
+  unfold boxStats
+  simp only [this]
+
+/-- the coverage guards of `Boxplot`: box coverage at least 40, whiskers coverage strictly above it -/
+theorem boxplotCheck_iff (b w : α) : boxplotCheck b w = .ok () ↔ 40 ≤ b ∧ b < w := by
+  unfold boxplotCheck
+  simp only [Nat.cast_ofNat]
+  by_cases h1 : b < 40
+  · simp [h1]
+  · by_cases h2 : w ≤ b
+    · simp [h1, h2]
+    · simp [h1, h2, not_lt.mp h1, not_le.mp h2]
+
+/-! ### violin -/
+
+/-- the "reduce impact of censored data" step selects every finite value: the density is estimated on
+all of them (the remainder mask is computed after the two tie masks were reduced) -/
+theorem violinSelect_keeps_all (eps : α) (vals : List α) (x0 x1 : α) : violinSelect eps vals x0 x1 = vals := by
+  unfold violinSelect
+  simp only
+  rw [select_mask_all _ _ (by simp [reduceMask_length])]
+  simp only [reduceMask_length, List.length_map]
+  exact zip_replicate_true_filterMap vals
+
+/-- the median of the sorted values is their quantile at level 1/2 -/
+theorem median_eq_quantile_half (s : List α) (hne : s ≠ []) :
+    ∃ m, median s = some m ∧ quantile s (1 / 2) = .ok m := by
+  have hlen : 0 < s.length := List.length_pos_iff.mpr hne
+  have hq0 : (0 : α) ≤ 1 / 2 := by norm_num
+  have hq1 : (1 : α) / 2 ≤ 1 := by norm_num
+  obtain ⟨first, hf⟩ : ∃ first, s.head? = some first := by
+    cases s with
+    | nil => exact absurd rfl hne
+    | cons a t => exact ⟨a, rfl⟩
+  obtain ⟨last, hl⟩ : ∃ last, s.getLast? = some last := ⟨_, List.getLast?_eq_some_getLast hne⟩
+  unfold median
+  simp only [show s.length ≠ 0 by omega, if_false]
+  by_cases hodd : s.length % 2 = 1
+  · simp only [hodd, if_true]
+    have hk : s.length / 2 < s.length := by omega
+    refine ⟨s[s.length / 2], List.getElem?_eq_getElem hk, ?_⟩
+    by_cases h1 : s.length = 1
+    · -- a single value: virtual index 0 is already the last index
+      rw [quantile_eq s first last hf hl _ hq0 hq1]
+      have : s.length - 1 = 0 := by omega
+      simp only [this, Nat.cast_zero, zero_mul, interpG, le_refl, if_true]
+      rw [getD_of_lt _ _ _ (by omega)]
+      congr 2
+      omega
+    · have hv : ((s.length - 1 : Nat) : α) * (1 / 2) = ((s.length / 2 : Nat) : α) := by
+        have : s.length - 1 = 2 * (s.length / 2) := by omega
+        rw [this]
+        push_cast
+        ring
+      rw [quantile_linear_interpolation s _ hq0 hq1 (s.length / 2) (by omega) (by rw [hv]) (by rw [hv]; linarith)]
+      rw [hv]
+      simp
+  · have heven : s.length % 2 = 0 := by omega
+    simp only [heven]
+    have hk1 : s.length / 2 - 1 < s.length := by omega
+    have hk2 : s.length / 2 < s.length := by omega
+    refine ⟨(s[s.length / 2 - 1] + s[s.length / 2]) / 2, ?_, ?_⟩
+    · simp [List.getElem?_eq_getElem hk1, List.getElem?_eq_getElem hk2]
+    · have hm : 1 ≤ s.length / 2 := by omega
+      have hv : ((s.length - 1 : Nat) : α) * (1 / 2) = ((s.length / 2 - 1 : Nat) : α) + 1 / 2 := by
+        have h1 : ((s.length - 1 : Nat) : α) = 2 * ((s.length / 2 - 1 : Nat) : α) + 1 := by
+          have : s.length - 1 = 2 * (s.length / 2 - 1) + 1 := by omega
+          exact_mod_cast this
+        rw [h1]
+        ring
+      have hidx : s.length / 2 - 1 + 1 = s.length / 2 := by omega
+      rw [quantile_linear_interpolation s _ hq0 hq1 (s.length / 2 - 1) (by omega) (by rw [hv]; linarith)
+        (by rw [hv]; linarith)]
+      rw [hv]
+      congr 1
+      simp only [hidx]
+      ring
+
+/-- `Violin.stats` of a column with at least one finite value: the five numbers are the quantiles of the
+sorted finite values at levels 0, 1/4, 1/2, 3/4, 1; they are ordered, the first is the minimum and the
+last the maximum of the finite values -/
+theorem violinStats_summary (data : List (Option α)) (hne : data.filterMap id ≠ []) (first last : α)
+    (hf : (sortL (data.filterMap id)).head? = some first) (hl : (sortL (data.filterMap id)).getLast? = some last) :
+    ∃ v, violinStats data = .ok (some v) ∧ v.q0 = first ∧ v.q100 = last ∧
+      v.q0 ≤ v.q25 ∧ v.q25 ≤ v.med ∧ v.med ≤ v.q75 ∧ v.q75 ≤ v.q100 ∧
+      quantile (sortL (data.filterMap id)) (1 / 4) = .ok v.q25 ∧
+      quantile (sortL (data.filterMap id)) (1 / 2) = .ok v.med ∧
+      quantile (sortL (data.filterMap id)) (3 / 4) = .ok v.q75 := by
+  set s := sortL (data.filterMap id) with hs_def
+  have hs := sortL_sorted (data.filterMap id)
+  have hsne : s ≠ [] := by rintro h; rw [h] at hf; simp at hf
+  obtain ⟨m, hm, hmq⟩ := median_eq_quantile_half s hsne
+  have e0 : (computePercentiles (((100 : Nat) : α))).1 / ((100 : Nat) : α) = 0 := by
+    simp [computePercentiles]
+  have e1 : (computePercentiles (((100 : Nat) : α))).2 / ((100 : Nat) : α) = 1 := by
+    simp [computePercentiles]
+  have e25 : (computePercentiles (((50 : Nat) : α))).1 / ((100 : Nat) : α) = 1 / 4 := by
+    simp only [computePercentiles, Nat.cast_ofNat]; norm_num
+  have e75 : (computePercentiles (((50 : Nat) : α))).2 / ((100 : Nat) : α) = 3 / 4 := by
+    simp only [computePercentiles, Nat.cast_ofNat]; norm_num
+  obtain ⟨z0, z1⟩ := quantile_zero_one s first last hf hl
+  obtain ⟨q25, h25, _, _⟩ := quantile_within_min_max s hs first last hf hl (1 / 4) (by norm_num) (by norm_num)
+  obtain ⟨q75, h75, _, _⟩ := quantile_within_min_max s hs first last hf hl (3 / 4) (by norm_num) (by norm_num)
+  refine ⟨{ q0 := first, q25 := q25, med := m, q75 := q75, q100 := last }, ?_, rfl, rfl, ?_, ?_, ?_, ?_, h25, hmq, h75⟩
+  · unfold violinStats
+    simp only [← hs_def, hm, pquantile, e0, e1, e25, e75, z0, z1, h25, h75]
+    rfl
+  · exact quantile_monotone s hs 0 (1 / 4) (le_refl _) (by norm_num) (by norm_num) _ _ z0 h25
+  · exact quantile_monotone s hs (1 / 4) (1 / 2) (by norm_num) (by norm_num) (by norm_num) _ _ h25 hmq
+  · exact quantile_monotone s hs (1 / 2) (3 / 4) (by norm_num) (by norm_num) (by norm_num) _ _ hmq h75
+  · exact quantile_monotone s hs (3 / 4) 1 (by norm_num) (by norm_num) (le_refl _) _ _ h75 z1
+
+/-- a column without finite value has no statistics (a NaN column) -/
+theorem violinStats_no_finite_value (data : List (Option α)) (h : data.filterMap id = []) :
+    violinStats data = .ok none := by
+  unfold violinStats
+  rw [h]
+  simp [sortL, median]
+
+/-- fewer than three finite values, or a constant column: no density profile -/
+theorem violinGrid_no_profile (eps : α) (data : List (Option α)) (npts : Nat) (err : List α)
+    (h : (data.filterMap id).length ≤ 2 ∨ ∀ a ∈ data.filterMap id, ∀ b ∈ data.filterMap id, a = b) :
+    violinGrid eps data npts err = .ok none := by
+  unfold violinGrid
+  cases hmin : minL (data.filterMap id) with
+  | none => simp only [hmin]
+  | some x0 =>
+    cases hmax : maxL (data.filterMap id) with
+    | none => simp only [hmin, hmax]
+    | some x1 =>
+      simp only [hmin, hmax]
+      rw [if_pos]
+      rcases h with h | h
+      · left; exact h
+      · right
+        rw [h x0 (minL_spec hmin).1 x1 (maxL_spec hmax).1]
+        exact lt_irrefl _
+
+end floor
+
+/-! ### grouping: `bucket cats data k` = the rows of category `k` in their original order (the group taken alone) -/
+
+/-- the groups produced by the scan are exactly the non-empty categories, each holding its own rows -/
+theorem groupBy_groups_are_buckets {β : Type} (cats : List Int) (data : List β) (k : Int) (vs : List β) :
+    (k, vs) ∈ groupBy cats data ↔ vs = bucket cats data k ∧ vs ≠ [] :=
+  mem_groupBy_iff cats data k vs
+
+/-- groups come in increasing key order, each key once -/
+theorem groupBy_keys_increasing {β : Type} (cats : List Int) (data : List β) :
+    ((groupBy cats data).map fun kv => kv.1).Pairwise (· < ·) :=
+  groupBy_keys_sorted cats data
+
+section groupstats
+variable {α : Type} [Field α] [LinearOrder α] [IsStrictOrderedRing α] [FloorRing α]
+
+/-- group-wise statistics equal those of each group taken alone: every column of the grouped result
+is `boxStats` of the rows of that category, and every category with at least one row has a column -/
+theorem boxStatsBy_group_alone (cats : List Int) (data : List (Option α)) (b w : α)
+    (gs : List (Int × Nat × Option (BoxVals α))) (h : boxStatsBy cats data b w = .ok gs) :
+    (∀ k cnt st, (k, cnt, st) ∈ gs → boxStats (bucket cats data k) b w = .ok (cnt, st)) ∧
+    (∀ k, bucket cats data k ≠ [] → ∃ cnt st, (k, cnt, st) ∈ gs) := by
+  have key : ∀ (groups : List (Int × List (Option α))) (out : List (Int × Nat × Option (BoxVals α))),
+      statsOfGroups b w groups = .ok out →
+      (∀ k cnt st, (k, cnt, st) ∈ out → ∃ vs, (k, vs) ∈ groups ∧ boxStats vs b w = .ok (cnt, st)) ∧
+      (∀ k vs, (k, vs) ∈ groups → ∃ cnt st, (k, cnt, st) ∈ out) := by
+    intro groups
+    induction groups with
+    | nil =>
+      intro out ho
+      simp only [statsOfGroups, Except.ok.injEq] at ho
+      subst ho
+      simp
+    | cons g t ih =>
+      intro out ho
+      simp only [statsOfGroups] at ho
+      cases hb : boxStats g.2 b w with
+      | error e => simp [hb] at ho
+      | ok st =>
+        cases ht : statsOfGroups b w t with
+        | error e => simp [hb, ht] at ho
+        | ok rest =>
+          simp only [hb, ht, Except.ok.injEq] at ho
+          subst ho
+          obtain ⟨ih1, ih2⟩ := ih rest ht
+          constructor
+          · intro k cnt st' hm
+            rcases List.mem_cons.mp hm with heq | hm
+            · simp only [Prod.mk.injEq] at heq
+              obtain ⟨rfl, rfl, rfl⟩ := heq
+              exact ⟨g.2, by simp, hb⟩
+            · obtain ⟨vs, hvs, hbs⟩ := ih1 k cnt st' hm
+              exact ⟨vs, List.mem_cons_of_mem _ hvs, hbs⟩
+          · intro k vs hm
+            rcases List.mem_cons.mp hm with heq | hm
+            · exact ⟨st.1, st.2, by rw [← heq]; simp⟩
+            · obtain ⟨cnt, st', hm'⟩ := ih2 k vs hm
+              exact ⟨cnt, st', List.mem_cons_of_mem _ hm'⟩
+  unfold boxStatsBy at h
+  simp only at h
+  split at h
+  · cases h
+  · split at h
+    · cases h
+    · obtain ⟨k1, k2⟩ := key _ gs h
+      constructor
+      · intro k cnt st hm
+        obtain ⟨vs, hvs, hbs⟩ := k1 k cnt st hm
+        rw [((groupBy_groups_are_buckets cats data k vs).mp hvs).1] at hbs
+        exact hbs
+      · intro k hk
+        exact k2 k _ ((groupBy_groups_are_buckets cats data k _).mpr ⟨rfl, hk⟩)
+
+end groupstats
+
+/-! ### the hypotheses are met by concrete inputs (evaluated by the kernel on ℚ) -/
+
+example : (boxStats [some (1 : Rat), none, some 3, some 2, some 4, some 10] 50 90).toOption.map
+      (fun r => (r.1, r.2.map fun v => [v.w1, v.b1, v.med, v.b2, v.w2, v.mean, v.max, v.min]))
+    = some (5, some [6 / 5, 2, 3, 4, 44 / 5, 4, 10, 1]) := by decide +kernel
+example : groupBy [2, 1, 2, 1, 1] ["a", "b", "c", "d", "e"] = [(1, ["b", "d", "e"]), (2, ["a", "c"])] := by decide
+example : (violinStats [some (1 : Rat), none, some 3, some 2, some 4]).toOption.map
+      (fun r => r.map fun v => [v.q0, v.q25, v.med, v.q75, v.q100])
+    = some (some [1, 7 / 4, 5 / 2, 13 / 4, 4]) := by decide +kernel
+example : percentile [(1 : Rat), 2, 4, 8] 50 = .ok 3 := by decide +kernel
+example : LhsInputsOK 2 [(0 : Rat)] [1] [[1, 0]] [[1 / 2, 0]] := by
+  simp only [LhsInputsOK, List.range_succ, List.range_zero, List.nil_append, List.cons_append]
+  refine ⟨by norm_num, List.Perm.swap 0 1 [], rfl, ?_, trivial⟩
+  intro x hx
+  simp only [List.mem_cons, List.not_mem_nil, or_false] at hx
+  rcases hx with rfl | rfl <;> norm_num
 
 end HydroVerif.C20
